@@ -49,6 +49,7 @@ def main (args : List String) : IO UInt32 := do
   | ["cloc"] => loop stdin stdout CocaVerif.Drv.Cloc.step (); return 0
   | ["api"] => loop stdin stdout CocaVerif.Drv.Api.step {}; return 0
   | ["javafull"] => loop stdin stdout CocaVerif.Drv.JavaFull.step {}; return 0
+  | ["passes"] => loop stdin stdout (fun (_ : Unit) (_ : Json) => ((), Json.mkObj [("allok", true)])) (); return 0
   | ["front"] => loop stdin stdout CocaVerif.Drv.Front.step none; return 0
   | ["refactor"] => loop stdin stdout CocaVerif.Drv.Refactor.step (); return 0
   | _ => IO.eprintln "usage: driver <family>"; return 2
